@@ -273,6 +273,13 @@ def check_case(case, acc):
     if not _FILTERS_SET:
         warnings.simplefilter("error")
         warnings.filterwarnings("default", module=r"hypothesis(\..*)?")  # the test library's own notices stay notices
+        try:
+            from hypothesis.errors import HypothesisDeprecationWarning, HypothesisWarning
+
+            warnings.filterwarnings("default", category=HypothesisDeprecationWarning)
+            warnings.filterwarnings("default", category=HypothesisWarning)
+        except ImportError:
+            pass
         _FILTERS_SET.append(True)
     if case.get("kind") == "blind":
         return check_blind(case, acc)
